@@ -12,11 +12,13 @@ package x25519
 
 // ScalarMult is golang.org/x/crypto's X25519 (assumed = RFC 7748), writing only dst.
 //@ func ScalarMult(dst, in, base)
+//@   ct
 //@   modifies *dst
 //@   ensures le(*dst) == x25519(le(old(*in)), le(old(*base)))
 
 // Base-point path: dst = u([clamp(in)]B), computed on the Edwards curve
 //@ func ScalarBaseMult(dst, in)
+//@   ct
 //@   alias dst==in
 //@   modifies *dst
 //@   ensures le(*dst) < P
@@ -27,6 +29,7 @@ package x25519
 //@   modifies nothing
 
 //@ func EdPrivateKeyToX25519(privateKey)
+//@   ct
 //@   requires len(privateKey) >= 32
 //@   modifies nothing
 //@   ensures len(result) == 32 && fresh(result)
